@@ -654,8 +654,10 @@ theorem lshiftLI_inert (a : LinComb) {n : Int} (hn : 0 ≤ n) : Inert zd p res (
   simp only [not_lt.mpr hn, if_false]
   exact Inert.ok trivial
 
-theorem rshiftLI_inert (a : LinComb) (n : Int) : Inert zd p res (fun _ => True) (rshiftLI a n) := by
+/-- `x >> n` for a public count; a negative count is Python's own `ValueError` (public operand) -/
+theorem rshiftLI_inert (a : LinComb) {n : Int} (hn : 0 ≤ n) : Inert zd p res (fun _ => True) (rshiftLI a n) := by
   unfold rshiftLI
+  simp only [not_lt.mpr hn, if_false]
   exact Inert.bind (toBits_inert a none) (fun _ _ => Inert.pure trivial)
 
 theorem andLI_inert (a : LinComb) (c : Int) : Inert zd p res (fun _ => True) (andLI a c) := (privVal_inert _).triv
